@@ -97,6 +97,12 @@ func runC26(r *Run) {
 		}
 		id := fmt.Sprintf("%d", idx)
 		text := fmt.Sprintf("%s[%d] %s", h.name, n, natsCSV(bits))
+		// the helpers are total: a panic (an empty slice, say) is a failing input, not a dead harness
+		defer func() {
+			if rec := recover(); rec != nil {
+				r.out.Finding("C26", "panic:"+h.name, fmt.Sprintf("the %s helper panics on a slice of %d elements: %v", h.name, n, rec), text)
+			}
+		}()
 		r.out.Case(text, n > 0)
 		r.out.Count("type:" + h.name)
 		if idx%23 == 0 {
